@@ -759,6 +759,7 @@ func regGenerated() {
 	regNumberTypes()
 	regSigTypes()
 	regKeyAgreementTypes()
+	regIntcomTypes()
 }
 
 var _ sharing.ID
